@@ -176,3 +176,43 @@ mod tests {
         }
     }
 }
+
+/// Verification hook: drives a `Decycler<usize, 64>` (the instantiation used
+/// for paint traversal) with a sequence of operations and reports each
+/// outcome. `Some(id)` enters node `id` (recursing on success), `None`
+/// leaves the innermost entered node. Outcome codes: 0 = entered,
+/// 1 = cycle detected, 2 = depth limit exceeded; each is followed by the
+/// depth after the operation.
+#[cfg(googlefonts_fontations_verif)]
+pub fn verif_drive_decycler(ops: &[Option<usize>]) -> Vec<(u8, usize)> {
+    fn go(
+        dec: &mut Decycler<usize, 64>,
+        ops: &mut core::slice::Iter<Option<usize>>,
+        out: &mut Vec<(u8, usize)>,
+    ) {
+        while let Some(op) = ops.next() {
+            match op {
+                Some(id) => {
+                    let entered = dec.enter(*id).map(|mut guard| {
+                        out.push((0, guard.depth));
+                        go(&mut guard, ops, out);
+                    });
+                    match entered {
+                        Ok(()) => {}
+                        Err(DecyclerError::CycleDetected) => out.push((1, dec.depth)),
+                        Err(DecyclerError::DepthLimitExceeded) => out.push((2, dec.depth)),
+                    }
+                }
+                None => return,
+            }
+        }
+    }
+    let mut dec = Decycler::<usize, 64>::new();
+    let mut out = Vec::new();
+    let mut it = ops.iter();
+    // a `None` at depth 0 is ignored
+    while it.len() > 0 {
+        go(&mut dec, &mut it, &mut out);
+    }
+    out
+}
